@@ -249,8 +249,69 @@ def year_lt_1000_symptoms(cp, prop, v):
     return sym
 
 
-def run_history(case, rec=None):
-    """Execute one history; raises Violation."""
+def apply_set(cp, prop, v, model, assigned):
+    """One assignment + the clauses that concern the assigned property. -> the ValueError or None"""
+    kind = S.PROPS[prop][0]
+    expect, vclass = vkind(prop, v)
+    raised = None
+    try:
+        with core.sut("C18:set:%s" % vclass, allow=(ValueError,)):
+            setattr(cp, prop, v)
+    except ValueError as e:
+        if core.origin_of(e)[0] != "sut":
+            raise
+        raised = e
+    if expect == "reject":
+        if raised is None:
+            what = ("over-255-accepted" if kind == "str" else
+                    "nonpositive-accepted" if vclass in ("rev-int", "rev-bool") else "wrong-type-accepted")
+            raise Violation("C18:reject:%s:%s" % (kind, what),
+                            "%s = %s value accepted, ValueError required"
+                            % (prop, ("len-%d string" % len(v)) if kind == "str" else repr(v)))
+    elif expect == "bool":
+        if raised is None:
+            with core.sut("C18:get:after-set"):
+                g = getattr(cp, prop)
+            if g != 1:
+                raise Violation("C18:revision:bool-accepted-reads-%s" % ("0" if g == 0 else "other"),
+                                "revision = True accepted without error but reads %r" % (g,))
+            model[prop] = g
+            assigned.add(prop)
+    else:
+        if raised is not None:
+            cls = (str_keyclass(v) if kind == "str" else "year-lt-1000" if kind == "date" and v.year < 1000
+                   else "in-domain")
+            raise Violation("C18:accept:%s:%s" % (kind, cls), "%s = %s raised ValueError: %s"
+                            % (prop, ("len-%d string" % len(v)) if kind == "str" else repr(v),
+                               str(raised)[:120]))
+        if kind == "date" and v.year < 1000:
+            sym = year_lt_1000_symptoms(cp, prop, v)
+            if sym:
+                raise Violation("C18:write:year-lt-1000", "%s = %r: %s" % (prop, v, "; ".join(sym)))
+        with core.sut("C18:get:after-set"):
+            g = getattr(cp, prop)
+        if kind == "str":
+            if not (isinstance(g, str) and g == v):
+                raise Violation("C18:set-get:str:%s" % str_keyclass(v),
+                                "%s assigned %r reads %r" % (prop, v, g))
+        elif kind == "rev":
+            if not (isinstance(g, int) and not isinstance(g, bool) and g == v):
+                raise Violation("C18:set-get:rev", "revision assigned %r reads %r" % (v, g))
+        else:
+            if not (isinstance(g, dt.datetime) and g.tzinfo is None
+                    and abs(g - v) < dt.timedelta(seconds=1)):
+                raise Violation("C18:set-get:date", "%s assigned %r reads %r" % (prop, v, g))
+        model[prop] = g
+        assigned.add(prop)
+    return raised
+
+
+REPAIRABLE = ("C18:write:year-lt-1000", "C18:revision:bool-accepted-reads-0")
+
+
+def run_history(case, rec=None, known=None):
+    """Execute one history; raises Violation. With `known` (search mode) the findings in REPAIRABLE
+    do not end the history."""
     deck = case["deck"]
     ops = case["ops"]
     save_each = bool(case.get("save_each", True))
@@ -321,59 +382,16 @@ def run_history(case, rec=None):
             cycles += 1
             continue
         _set, prop, v = op
-        kind = S.PROPS[prop][0]
-        expect, vclass = vkind(prop, v)
-        raised = None
-        try:
-            with core.sut("C18:set:%s" % vclass, allow=(ValueError,)):
-                setattr(cp, prop, v)
-        except ValueError as e:
-            if core.origin_of(e)[0] != "sut":
-                raise
-            raised = e
         where = "after step %d (%s)" % (i, prop)
-        if expect == "reject":
-            if raised is None:
-                what = ("over-255-accepted" if kind == "str" else
-                        "nonpositive-accepted" if vclass in ("rev-int", "rev-bool") else "wrong-type-accepted")
-                raise Violation("C18:reject:%s:%s" % (kind, what),
-                                "%s = %s value accepted, ValueError required"
-                                % (prop, ("len-%d string" % len(v)) if kind == "str" else repr(v)))
-        elif expect == "bool":
-            if raised is None:
-                with core.sut("C18:get:after-set"):
-                    g = getattr(cp, prop)
-                if g != 1:
-                    raise Violation("C18:revision:bool-accepted-reads-%s" % ("0" if g == 0 else "other"),
-                                    "revision = True accepted without error but reads %r" % (g,))
-                model[prop] = g
-                assigned.add(prop)
-        else:
-            if raised is not None:
-                cls = (str_keyclass(v) if kind == "str" else "year-lt-1000" if kind == "date" and v.year < 1000
-                       else "in-domain")
-                raise Violation("C18:accept:%s:%s" % (kind, cls), "%s = %s raised ValueError: %s"
-                                % (prop, ("len-%d string" % len(v)) if kind == "str" else repr(v),
-                                   str(raised)[:120]))
-            if kind == "date" and v.year < 1000:
-                sym = year_lt_1000_symptoms(cp, prop, v)
-                if sym:
-                    raise Violation("C18:write:year-lt-1000", "%s = %r: %s" % (prop, v, "; ".join(sym)))
-            with core.sut("C18:get:after-set"):
-                g = getattr(cp, prop)
-            if kind == "str":
-                if not (isinstance(g, str) and g == v):
-                    raise Violation("C18:set-get:str:%s" % str_keyclass(v),
-                                    "%s assigned %r reads %r" % (prop, v, g))
-            elif kind == "rev":
-                if not (isinstance(g, int) and not isinstance(g, bool) and g == v):
-                    raise Violation("C18:set-get:rev", "revision assigned %r reads %r" % (v, g))
-            else:
-                if not (isinstance(g, dt.datetime) and g.tzinfo is None
-                        and abs(g - v) < dt.timedelta(seconds=1)):
-                    raise Violation("C18:set-get:date", "%s assigned %r reads %r" % (prop, v, g))
-            model[prop] = g
-            assigned.add(prop)
+        try:
+            raised = apply_set(cp, prop, v, model, assigned)
+        except Violation as vio:
+            # listed findings that are confined to the assigned property: count, overwrite the
+            # property with an ordinary value (a legal continuation of the history) and go on
+            if known is None or vio.key not in known or vio.key not in REPAIRABLE:
+                raise
+            rec.known[vio.key] += 1
+            raised = apply_set(cp, prop, 1 if prop == "revision" else dt.datetime(2000, 1, 1), model, assigned)
         # frame condition + rejected assignments change nothing
         got = read_all(cp, "after-set")
         check_types(got, where)
@@ -572,6 +590,11 @@ GRANS = ["year", "month", "day", "minute", "second", "fraction"]
 def strategies():
     from hypothesis import strategies as st
 
+    def weighted(*pairs):
+        """one_of with integer weights (one_of itself ignores repeated branches)"""
+        idx = [i for i, (w, _s) in enumerate(pairs) for _ in range(w)]
+        return st.sampled_from(idx).flatmap(lambda i: pairs[i][1])
+
     # ---- strings over the XML Char production
     frag = st.one_of(
         st.sampled_from([" ", "\t", "\n", "\r", "\r\n", "  ", "<", ">", "&", '"', "'", "]]>", "&amp;",
@@ -583,9 +606,10 @@ def strategies():
         st.characters(min_codepoint=0xE000, max_codepoint=0xFFFD),
         st.characters(min_codepoint=0x10000, max_codepoint=0x10FFFF),
     )
-    body = st.one_of(st.lists(frag, max_size=10).map("".join),
-                     st.lists(frag, max_size=10).map("".join),
-                     st.text(alphabet=" \t\n\r", min_size=1, max_size=6))
+    ws = st.text(alphabet=" \t\n\r", min_size=1, max_size=6)
+    inner = st.lists(frag, max_size=10).map("".join)
+    body = weighted((8, inner), (1, ws), (1, st.tuples(ws, inner).map("".join)),
+                    (1, st.tuples(inner, ws).map("".join)), (1, st.tuples(ws, inner, ws).map("".join)))
 
     def fit(b, n):
         if n is None:
@@ -594,8 +618,8 @@ def strategies():
             b = "x"
         return (b * (n // len(b) + 1))[:n]
 
-    length = st.one_of(st.none(), st.none(),
-                       st.sampled_from([0, 1, 249, 250, 254, 255, 255, 256, 256, 256, 257, 300]))
+    length = weighted((2, st.none()),
+                      (1, st.sampled_from([0, 1, 249, 250, 254, 255, 255, 256, 256, 256, 257, 300])))
     text = st.builds(fit, body, length)
 
     # ---- datetimes
@@ -607,14 +631,14 @@ def strategies():
     edges = [dt.datetime(1000, 1, 1), hi, hi.replace(microsecond=0), dt.datetime(1970, 1, 1),
              dt.datetime(2000, 2, 29, 23, 59, 59, 500000), dt.datetime(1900, 1, 1),
              dt.datetime(2038, 1, 19, 3, 14, 8), dt.datetime(1601, 1, 1), dt.datetime(1582, 10, 10)]
-    alts = [main, recent, micro, micro, st.sampled_from(edges)]
+    alts = [(3, main), (3, recent), (4, micro), (1, st.sampled_from(edges))]
     if YEAR_MIN < 1000:
         low = st.one_of(st.datetimes(min_value=dt.datetime(YEAR_MIN, 1, 1),
                                      max_value=dt.datetime(999, 12, 31, 23, 59, 59, 999999)),
                         st.sampled_from([dt.datetime(YEAR_MIN, 1, 1), dt.datetime(999, 12, 31, 23, 59, 59),
                                          dt.datetime(100, 6, 15, 12, 0, 0), dt.datetime(99, 1, 1)]))
-        alts += [main, recent, micro, low]   # ~1/9 of the datetimes
-    dates = st.one_of(*alts)
+        alts.append((1, low))   # 1/12 of the datetimes
+    dates = weighted(*alts)
 
     rev_ok = st.one_of(st.integers(1, 10 ** 6), st.sampled_from([1, 1, 2, 2 ** 31 - 1, 2 ** 31, 2 ** 63, 10 ** 30]))
     rev_bad = st.sampled_from([0, 0, 0, -1, -2 ** 31, -10 ** 20, False, None, "1", "x", 2.5])
@@ -629,8 +653,8 @@ def strategies():
     bad_rev = st.tuples(st.just("set"), st.just("revision"), rev_bad)
     bad_date = st.tuples(st.just("set"), dprop, date_bad)
     cycle = st.just(("cycle",))
-    op = st.one_of(set_str, set_str, set_str, set_str, set_date, set_date, set_date, set_rev, set_rev,
-                   bad_rev, bad_date, cycle, cycle, st.one_of(set_true, bad_rev))
+    op = weighted((40, set_str), (20, set_date), (10, set_rev), (6, bad_rev), (5, bad_date), (14, cycle),
+                  (1, set_true))
 
     def cap_cycles(ops):
         out, n = [], 0
@@ -656,7 +680,7 @@ def strategies():
                                                 dt.datetime(9998, 12, 31, 23, 59, 59)]))
     offs = st.one_of(st.integers(-14 * 60, 14 * 60), st.integers(-14, 14).map(lambda h: h * 60),
                      st.sampled_from([-840, 840, 330, -570, 345, 1, -1, 59, -59]))
-    tzd = st.one_of(st.just("Z"), offs.map(fmt_off), offs.map(fmt_off), st.sampled_from(["+00:00", "-00:00"]))
+    tzd = weighted((2, st.just("Z")), (6, offs.map(fmt_off)), (1, st.sampled_from(["+00:00", "-00:00"])))
     fracs = st.one_of(st.sampled_from(["0", "5", "9", "50", "999", "000001", "999999", "1234567", "999999999"]),
                       st.from_regex(r"[0-9]{1,9}", fullmatch=True))
 
@@ -667,13 +691,13 @@ def strategies():
             tz = None
         return fmt_w3cdtf(d, gran, frac, tz)
 
-    any_gran = st.builds(build, st.sampled_from(GRANS + ["minute", "second", "fraction", "fraction"]), rdates,
+    any_gran = st.builds(build, st.sampled_from(GRANS + ["minute", "second", "second", "fraction", "fraction"]), rdates,
                          fracs, tzd, st.sampled_from([False] * 7 + [True]))
     full = st.builds(build, st.sampled_from(["second", "fraction"]), rdates, fracs, tzd,
                      st.sampled_from([False] * 7 + [True]))
     readcase = st.fixed_dictionaries({
         "deck": st.sampled_from(["default", "default", "minimal"]),
-        "created": any_gran, "modified": st.one_of(any_gran, st.none()), "last_printed": st.one_of(full, full, st.none()),
+        "created": any_gran, "modified": weighted((3, any_gran), (1, st.none())), "last_printed": weighted((3, full), (1, st.none())),
     })
     return history, readcase
 
@@ -697,7 +721,7 @@ def grid_cases(step):
 
 # ------------------------------------------------------------------ harness interface
 
-NSEQ = 20
+NSEQ = 16
 NREAD = 6
 NGRID = 6
 
@@ -726,7 +750,7 @@ def run_job(job, seed, tier, rec, known):
         def fn(case):
             nt, classes = history_profile(case)
             rec.note(case, nt, classes)
-            run_history(case)
+            run_history(case, rec, known)
 
         return hyp_search(fn, history, seed=seed, max_examples=job["n"], rec=rec, known=known)
     if k == "read":
